@@ -110,6 +110,7 @@ def class_key(viol):
 def _worker(modname, task):
     faulthandler.enable()
     faulthandler.dump_traceback_later(task.get("_timeout", 1500), exit=True)
+    cov = _reach_start()
     try:
         mod = importlib.import_module(modname)
         t0 = time.time()
@@ -121,8 +122,26 @@ def _worker(modname, task):
         return {"error": traceback.format_exc(), "task": task}
     finally:
         faulthandler.cancel_dump_traceback_later()
+        if cov is not None:
+            cov.stop()
+            cov.save()
         from .world import sweep
         sweep()
+
+
+def _reach_start():
+    """Reach measurement (tools/reach.py; off unless CDDSIM_REACH names a directory): line coverage of the cdd code
+    executed by this worker, through sys.monitoring so that the step seam's sys.settrace is left alone."""
+    d = os.environ.get("CDDSIM_REACH")
+    if not d:
+        return None
+    os.environ["COVERAGE_CORE"] = "sysmon"
+    import coverage
+    from . import REPO
+    cov = coverage.Coverage(data_file=os.path.join(d, "cov"), data_suffix=True, include=[os.path.join(REPO, "cdd", "*")],
+                            omit=["*/tests/*"], config_file=False)
+    cov.start()
+    return cov
 
 
 def _known_worker(modname, entries):
